@@ -65,6 +65,9 @@ pub(crate) struct SessionConnectionActorX<S: ZmtpStdStream> {
   _connection_permit: Option<OwnedSemaphorePermit>,
   incoming_pipe_sender: Option<PipeMessageSender>,
   is_currently_congested: bool,
+  /// Messages the engine decoded from bytes that arrived in the same read as the peer's last
+  /// handshake bytes; handed to the ingress path once the session is operational.
+  early_ingress: std::collections::VecDeque<FrameBatch>,
 
   #[cfg(target_os = "linux")]
   cork_info: Option<crate::sessionx::cork::TcpCorkInfoX>,
@@ -150,6 +153,7 @@ where
       _connection_permit: connection_permit,
       incoming_pipe_sender: None,
       is_currently_congested: false,
+      early_ingress: std::collections::VecDeque::new(),
       cork_info,
     };
 
@@ -291,6 +295,7 @@ where
     // ── OPERATIONAL LOOP ──────────────────────────────────────────────────────
     if self.current_phase == ConnectionPhaseX::Operational {
       let mut message_processor = ZmqMessageProcessor::new();
+      ingress_buffer.extend(self.early_ingress.drain(..));
 
       let mut read_half = self
         .read_half
@@ -933,9 +938,10 @@ where
           self.set_fatal_error(e).await;
           return;
         }
-        AppAction::DeliverMessage(_) => {
+        AppAction::DeliverMessage(batch) => {
           #[cfg(rzmq_verif)]
           crate::verif::count("sca.hs.deliver_in_handshake");
+          self.early_ingress.push_back(batch);
         }
       }
     }
